@@ -159,6 +159,17 @@ def spec_of(case, q=None, with_operator=True):
                       for i in range(len(pids))]
             spec.append({"id": "joint", "type": "JointDistributionModel", "distributions": ds})
         joint = "joint"
+    elif kind == "gamma_raw":
+        # a positive parameter sampled WITHOUT a transform: a trajectory that leaves the support fails
+        # numerically and the operator tries again with a new momentum
+        pids = [f"x{i}" for i in range(len(sizes))]
+        ab, rb = blocks(t["shape"], sizes), blocks(t["rate"], sizes)
+        spec.append({"id": "joint", "type": "JointDistributionModel", "distributions": [
+            {"id": f"gamma{i}", "type": "Distribution", "distribution": "torch.distributions.Gamma",
+             "x": impl.param_json(pid, qb[i]),
+             "parameters": {"concentration": impl.param_json(f"gamma{i}.shape", ab[i]),
+                            "rate": impl.param_json(f"gamma{i}.rate", rb[i])}} for i, pid in enumerate(pids)]})
+        joint = "joint"
     elif kind == "gamma":
         pids = [f"z{i}" for i in range(len(sizes))]
         ab, rb = blocks(t["shape"], sizes), blocks(t["rate"], sizes)
@@ -552,6 +563,57 @@ def check_reversible(b, case, q0, p0, rng):
     return "ok", None
 
 
+def check_changed_target(b, case, q0, p0, rng):
+    """Two consecutive trajectories of the SAME operator, the second starting from the point the first
+    one left in the parameters (as after an accepted move), with a hyper-parameter of the target changed
+    in between by someone else: the second trajectory must be the leapfrog trajectory of the CURRENT
+    target (reference: a freshly built operator on the changed target, started at the same point)."""
+    torch = impl.load()
+    from torchtree.core.parameter import Parameter
+    if case["kind"] not in ("normal", "mvn", "gamma"):
+        return "skipped", None
+    q1, p1 = integrate(b, case, q0, p0)
+    if not all(math.isfinite(v) for v in q1 + p1):
+        return "undefined", None
+    case2 = json.loads(json.dumps(case))
+    t = case2["target"]
+    if case["kind"] == "gamma":
+        t["rate"] = [v * rng.uniform(1.2, 1.8) for v in t["rate"]]
+    else:
+        t["loc"] = [v + rng.uniform(0.4, 1.1) for v in t["loc"]]
+    b2 = build(case2)
+    moved = 0
+    for pid, o2 in b2.dic.items():
+        o1 = b.dic.get(pid)
+        if isinstance(o2, Parameter) and isinstance(o1, Parameter) and o1 not in b.params \
+                and o1.tensor.shape == o2.tensor.shape and not torch.equal(o1.tensor, o2.tensor):
+            o1.tensor = o2.tensor.detach().clone()
+            moved += 1
+    if not moved:
+        return "skipped", None
+    pn = [rng.gauss(0.0, 1.0) for _ in p0]
+    integ = b.op._integrator
+    try:     # second trajectory from the kept point: the parameters are NOT assigned in between
+        p2 = integ(b.op._hamiltonian.joint, b.op.parameters, torch.tensor(pn), b.op.inverse_mass_matrix)
+    except ValueError:
+        for x in b.params:
+            x.requires_grad = False
+        return "undefined", None
+    q2, p2 = flat([x.tensor for x in b.params]), [float(v) for v in p2]
+    for x in b.params:
+        x.requires_grad = False
+    q2r, p2r = integrate(b2, case2, q1, pn)
+    if not all(math.isfinite(v) for v in q2 + p2 + q2r + p2r):
+        return "undefined", None
+    err = max(maxabs([a - c for a, c in zip(q2, q2r)]), maxabs([a - c for a, c in zip(p2, p2r)]))
+    scale = max(1.0, maxabs(q2r), maxabs(p2r))
+    if not err <= 1e-9 * scale:
+        return "bad", (f"second trajectory of the same operator after a hyper-parameter of the target changed differs "
+                       f"from the trajectory of a fresh operator on the changed target by {err:.3e} "
+                       f"(eps={case['eps']:.4g} L={case['L']})")
+    return "ok", None
+
+
 def det(M):
     n = len(M)
     A = [row[:] for row in M]
@@ -762,6 +824,29 @@ def check_failure_path(seed):
     return case, None
 
 
+def check_retry_path(seed, want=4, tries=200):
+    """A trial that fails numerically followed by one that succeeds: the value returned must be the
+    kinetic-energy change of the LAST trial (drawn momentum -> returned momentum)."""
+    found = 0
+    for t in range(tries):
+        case = dict(kind="gamma_raw", eps=0.3, L=2, draw_seed=seed * 1000 + t, sizes=[1, 1], n=2, q0=[0.15, 0.3],
+                    target=dict(shape=[2.0, 3.0], rate=[1.0, 2.0]), mass_kind="diag", mass=[1.0, 1.0],
+                    mass_update=False)
+        try:
+            out = run_step(case)
+        except Exception as e:  # noqa
+            return case, f"step() raises {type(e).__name__}: {str(e)[:160]}", found
+        if out["failed"] or out["draws"] < 2:
+            continue
+        found += 1
+        bad = check_step_outputs(case, out)
+        if bad:
+            return case, f"after {out['draws'] - 1} failed trial(s): " + "; ".join(t_ for _, t_ in bad), found
+        if found >= want:
+            break
+    return None, None, found
+
+
 # ----------------------------------------------------------------------------- per-case work (worker processes)
 
 def work(args):
@@ -822,6 +907,7 @@ def work(args):
             heavy = case["kind"] == "phylo"
             c, o = case, out
             tests = [("reversible", lambda b: check_reversible(b, c, c["q0"], o["p0"], g))]
+            tests.append(("changed-target", lambda b: check_changed_target(build(c), c, c["q0"], o["p0"], g)))
             if tier == "thorough" or (not heavy and c["n"] * (c["L"] + 1) <= 100) or (heavy and c["L"] <= 5):
                 tests.append(("jacobian-det", lambda b: check_jacobian(b, c, c["q0"], o["p0"])))
             if tier == "thorough" or not heavy or ci % 2 == 0:
@@ -849,7 +935,14 @@ def work_failure(seed):
     torch.set_num_threads(1)
     with contextlib.redirect_stdout(io.StringIO()):
         try:
-            return check_failure_path(seed)
+            c, text = check_failure_path(seed)
+            if text is None:
+                c2, text2, n_retry = check_retry_path(seed)
+                if text2 is not None:
+                    return c2, "retry path: " + text2
+                if n_retry == 0:
+                    return None, None
+            return c, text
         except Exception as e:  # noqa
             return None, f"{type(e).__name__}: {str(e)[:200]}"
 
